@@ -268,9 +268,9 @@ class GeneralizedLinearEstimator(LinearModel):
             Contain the target values for each sample.
         """
         if isinstance(self.datafit, (Logistic, QuadraticSVC)):
-            scores = self._decision_function(X).ravel()
-            if len(scores.shape) == 1:
-                indices = (scores > 0).astype(int)
+            scores = self._decision_function(X)
+            if scores.ndim == 1 or scores.shape[1] == 1:
+                indices = (scores.ravel() > 0).astype(int)
             else:
                 indices = scores.argmax(axis=1)
             return self.classes_[indices]
